@@ -706,6 +706,47 @@ def r_lineloop(prog, R):
             r.ok(k, f.loc(f.ln), "%d early exits" % nexits)
 
 
+def r_linefeed(prog, R):
+    r = R.rule("R-C15-LINEFEED", "a parser that works on a whole file buffer and ends entries with ares_buf_consume_line never skips white space across a line end: "
+               "an entry that stops early must not pull the next line into itself", floor=2, analysis="buffer provenance (callers that consume lines) x constant argument")
+    # functions that end entries by consuming the rest of the line on a buffer, and everything they hand that buffer to
+    roots = {}
+    for f in prog.funcs.values():
+        for b, i, c in f.calls_to("ares_buf_consume_line"):
+            a = strip(call_arg(c, 0))
+            if is_var(a):
+                roots.setdefault(f.key, (f, set()))[1].add(a["n"])
+    users = dict(roots)
+    work = list(roots.values())
+    while work:
+        f, bufs = work.pop()
+        for b, i, c in f.calls():
+            t = prog.resolve(f, c)
+            if t is None or not t.file.startswith("src/lib/ares_"):
+                continue
+            for k, a in enumerate(c.get("args", [])):
+                a2 = strip(a)
+                if is_var(a2) and a2["n"] in bufs and k < len(t.params):
+                    ent = users.setdefault(t.key, (t, set()))
+                    if t.params[k]["n"] not in ent[1]:
+                        ent[1].add(t.params[k]["n"])
+                        work.append(ent)
+    n = 0
+    for key, (f, bufs) in sorted(users.items()):
+        for b, i, c in f.calls_to("ares_buf_consume_whitespace"):
+            a = strip(call_arg(c, 0))
+            if not (is_var(a) and a["n"] in bufs):
+                continue
+            n += 1
+            k = "fn=%s skips white space within the line only" % f.name
+            if name_of_const(call_arg(c, 1)) == "ARES_FALSE":
+                r.ok(k, f.loc(c["ln"]))
+            else:
+                r.viol(k, f.name, f.loc(c["ln"]), "%s skips white space on the whole-file buffer with include_linefeed = %s: after an entry that stops early (an address without host names) the newline is consumed as well and the following line is read as part of this entry" % (f.name, render(call_arg(c, 1))))
+    r.info["line_oriented_functions"] = sorted(f.name for f, _ in users.values())
+    r.require(n >= 2, "fewer than 2 white-space skips in line-oriented parsers found")
+
+
 def run(prog, R, tier):
     R.assume("callees are given valid (non-NULL) pointers by the configuration parsers (defensive NULL-argument returns are not part of the return sets)")
     ownrules.own_rule(prog, R, "R-C15-OWN", FILES, floor=30)
@@ -718,4 +759,6 @@ def run(prog, R, tier):
     r_empty(prog, R)
     r_num(prog, R)
     r_lineloop(prog, R)
+    r_linefeed(prog, R)
+    ownrules.realloc_rule(prog, R, "R-C15-REALLOC")
     outinit.outinit_rule(prog, R, "R-C15-OUTINIT", floor=10)
